@@ -55,6 +55,41 @@ CHECKS = {
         note="Exhaustive over finite pools (quick ~16k scenarios, thorough ~170k), not over all byte strings; SPS fields "
              "that do not affect the size are fixed by the trusted bit writer; H.265 oracle is the coded luma size.",
         ref="6/C19"),
+    "C12": dict(
+        technique="TLA+ spec Rtp (packer acceptor, reorder network, lal's RtpPacketList / RtpUnpackContainer / TryUnpackOne; "
+                  "TLC exhaustive on a scaled model) + re-concretised cases run through lal's packer and unpack container, "
+                  "cross-bound to an independent RFC 6184/7798/3640 codec + TLC trace validation",
+        text="TLC checks PackerOK (payload limit, marker, seq step, timestamp, in-order reassembly), Lossless / order "
+             "insensitivity inside the window and window tightness on a scaled exhaustive model (seq mod 32, capacity 5); "
+             "a seeded sample of the enumerated cases plus size / NAL-header / AAC sweeps is executed against lal and "
+             "every Pack / Feed event is decided by TLC at sequence modulus 65536.",
+        note="Exhaustive only for the scaled model; implementation coverage is a seeded sample plus fixed sweeps; the "
+             "receiver syncs on the first packet it sees (assumption); STAP-A/AP and multi-AU AAC packets are not "
+             "generated (lal's packer never emits them).",
+        ref="6/C12"),
+    "C14": dict(
+        technique="TLA+ decision tables and state machines Auth (simple-auth admission table, RTSP Basic/Digest challenge "
+                  "machine, kick, black-list expiry, lexical path normalisation; TLC exhaustive) + every case executed "
+                  "against a real logic.ServerManager + TLC trace validation",
+        text="TLC enumerates flag sets x protocol-directions x secret forms, RTSP credential sequences, request paths and "
+             "stream names as token sequences, with eight design invariants; every case is executed against a real "
+             "ServerManager (RTMP, HTTP-FLV/TS, RTSP and HLS entry objects on in-memory connections, temp-dir roots) and "
+             "the observations (media/SDP/playlist returned, stat listing, files served/created) are decided by TLC.",
+        note="Secrets, stream names and path tokens are finite representatives; sessions enter at the objects the "
+             "listeners hand connections to (no TCP/TLS listener); black-list timing uses the real clock.",
+        ref="6/C14"),
+    "C03": dict(
+        technique="TLA+ spec Lifecycle (ServerManager / Group session bookkeeping, one action per critical section; TLC "
+                  "exhaustive + simulation) + replay into a real logic.ServerManager + TLC trace validation",
+        text="TLC checks AtMostOneInput, PipelineOwned, NotifyPaired and EmptyRemoved over every interleaving of RTMP / "
+             "RTSP / customize / GB28181 inputs, subscribers, kicks, probes of stale inputs and ticks; edge-cover paths "
+             "and simulated behaviours are replayed into a real ServerManager through its observer callbacks and API "
+             "methods, and return codes, notifications, stream-hook callbacks, forwarding and the stat listing after "
+             "every step are decided by TLC.",
+        note="Sessions are real lal session objects on in-memory connections handed to the real callbacks (accept loops "
+             "are not part of the scenario); Tick runs through the verif hook VerifTick (a copy of the loop body); relay "
+             "pull interleavings are covered by C17.",
+        ref="6/C03"),
 }
 
 NOT_APPLICABLE = {}
